@@ -182,6 +182,8 @@ func (w *Worker) getCVC5() *proc {
 type Explorer struct {
 	opt      Options
 	mu       sync.Mutex
+	allFuncs map[string]bool
+	nres     int
 	cond     *sync.Cond
 	work     [][]int64
 	busy     int
@@ -553,6 +555,23 @@ func (e *Explorer) done(res *PathResult, pending [][]int64) {
 	e.busy--
 	e.work = append(e.work, pending...)
 	if res != nil {
+		// Keep the memory of long explorations flat: the set of executed
+		// functions is merged here, and beyond the first 4 000 paths only
+		// every 32nd path (plus every path with a candidate, an inconclusive
+		// item or an unusual end) keeps its model, predicted observations and
+		// notes - those are only used to pick native validation samples.
+		if e.allFuncs == nil {
+			e.allFuncs = map[string]bool{}
+		}
+		for f := range res.Funcs {
+			e.allFuncs[f] = true
+		}
+		res.Funcs = nil
+		e.nres++
+		plain := (res.End == "ok" || res.End == "infeasible") && len(res.Cands) == 0 && len(res.Incon) == 0
+		if plain && e.nres > 4000 && e.nres%32 != 0 {
+			res.Model, res.ObsPred, res.Notes, res.Reached = nil, nil, nil, nil
+		}
 		e.results = append(e.results, res)
 		if e.OnResult != nil {
 			e.OnResult(res)
@@ -635,6 +654,9 @@ func (e *Explorer) Run(ld *Loaded, harness string) ([]*PathResult, []string) {
 	}
 	wg.Wait()
 	sort.Slice(e.results, func(i, j int) bool { return lessDecis(e.results[i].Decis, e.results[j].Decis) })
+	if len(e.results) > 0 {
+		e.results[0].Funcs = e.allFuncs // the union, reported once
+	}
 	return e.results, e.bugs
 }
 
